@@ -26,7 +26,7 @@ CFG = {
     "assumptions": [
         "geometries have no nil members (a nil interface inside a GeometryCollection or a nil *Bounds panics in Go; the model reproduces it, the theorems exclude it by `noNil`)",
         "nil slices and empty slices are not distinguished",
-        "all transformers of a pool are built before the first call (NewTransform's nil-if-Equal answer can flip once a constructor has run on one of two equal SRs; noted, outside the property)",
+        "NewTransform's nil-if-Equal answer can flip once a constructor has run on one of two equal SRs (noted, outside the property): such a flip on a transformer built between calls is skipped",
         "axis strings have three letters (what projString accepts; DeriveConstants defaults to enu)",
     ],
     "rule": "gt lines: grammar-generated geometries of all 8 types (nesting <= 3, member counts 0..7, coordinates from random bit patterns, NaN payloads, "
@@ -37,6 +37,7 @@ CFG = {
             "from a 43-entry catalogue stratified by {no hop, hop on source side, hop on dest side, both, non-default axis order (11 axis strings), registry "
             "entries WGS84/EPSG:4326/EPSG:3857/GOOGLE, grid-shift datums and failing constructors, random}; every answer compared bit-for-bit with a freshly "
             "parsed + freshly built transformer's answer, with the Lean model's answer, and the SR states with the model's. "
+            "Second round: +R_A/+rf/+from_greenwich/+to_meter references; NewTransform as a history step (transformers built between calls, state tags checked before and after every call); gt lines run three calls (identical repeat, then after in-place mutation of the operand) with late re-check of earlier results, inputs laid out as windows of one flat buffer / prefix re-slices / nil-for-empty, dyadic scales, size thresholds 63..2048. "
             "distinct = distinct input line; non-trivial = class not nocalls/skipped/bad",
     "trivial_class": r"(nocalls|skipped|^gt-bad|^hist-bad)",
     "timeout": {"quick": 600, "thorough": 3000},
